@@ -118,8 +118,11 @@ def run_case(ctx, case):
     lead = case["lead"]
     ldims = ["t%d" % i for i in range(len(lead))]
     n_face, n_node = g.n_face, g.n_node
-    for field in ("random", "constant", "integer", "with_nan"):
-        if field == "with_nan":  # masked data: a missing value on one side of an edge makes that edge's difference missing
+    for field in ("random", "constant", "integer", "with_nan", "tiny_values"):
+        if field == "tiny_values":  # trace quantities (mixing ratios ~1e-10): differences far below 1e-8 are still differences
+            fdat = rng.normal(size=tuple(lead) + (n_face,)) * 2e-10
+            ndat = rng.normal(size=tuple(lead) + (n_node,)) * 2e-10
+        elif field == "with_nan":  # masked data: a missing value on one side of an edge makes that edge's difference missing
             fdat = rng.normal(size=tuple(lead) + (n_face,))
             ndat = rng.normal(size=tuple(lead) + (n_node,))
             fdat[..., rng.random(n_face) < 0.3] = np.nan
